@@ -904,9 +904,11 @@ def check_viewer(E, dm, m):
 # ---------------------------------------------------------------------------------------------
 # one step = one operation + all comparisons
 
-def compare_all(E, dm, m, order, active, info, light=False):
+def compare_all(E, dm, m, order, active, info, light=False, deep_index=None):
     """Raises Found / Crash.  order 'I' = indexed queries first, 'R' = row queries first."""
-    fams = [("index", lambda: check_index(E, dm, m, active, deep=not light)), ("rows", lambda: check_rows(E, dm, m))]
+    if deep_index is None:
+        deep_index = not light
+    fams = [("index", lambda: check_index(E, dm, m, active, deep=deep_index)), ("rows", lambda: check_rows(E, dm, m))]
     if order == "R":
         fams.reverse()
     for _, f in fams:
@@ -1176,7 +1178,7 @@ def run_case(case, E=None):
                     try:
                         dm.set_refresh_flag()
                         dm.get_rows()
-                        compare_all(E, dm, m, "R", active, info, light=True)
+                        compare_all(E, dm, m, "R", active, info, light=True, deep_index=True)
                         cured = True
                     except (Found, Crash):
                         cured = False
@@ -1191,7 +1193,7 @@ def run_case(case, E=None):
                     try:
                         dm.set_refresh_flag()
                         dm.get_rows()
-                        compare_all(E, dm, m, "R", active, info, light=True)
+                        compare_all(E, dm, m, "R", active, info, light=True, deep_index=True)
                         sig = (ID, "not-invalidated", opclass(op), "index" if ("index" in c.where or "block" in c.where or "bundle" in c.where) else "rows")
                         what += "  [caches were not invalidated by %s: correct after set_refresh_flag()+get_rows()]" % op[0]
                     except (Found, Crash):
